@@ -14,7 +14,9 @@ C2S: seeded random richer request streams (random header sets, bodies to 300 byt
      one-byte mutations at framing-relevant positions, random segmentations) are run on the real
      server; TLC validates each recorded run against Trace_HttpReader.
 
-Binding demonstrated during development (scratch worktree, VERIF_REPO=/tmp/wt-httpr): see notes/httpr.md.
+Binding demonstrated during development (scratch worktrees, VERIF_REPO=...): the reverted fixes F04 / F30 / F35 each
+produce their divergences (52 / 95 / 7 replayed behaviours); seeded edits M2 (`parse_int` -> `int()`) and M5 (Content-Length
+with Transfer-Encoding no longer refused) are reported by the S2C replay as `accepted_refused`; see notes/httpr.md.
 """
 from harness import framework
 from harness import httpr_check as H
